@@ -1715,3 +1715,63 @@ Example ex_cache_managers :
   map (fun m => expire_timestamp Ex.q m Ex.ev) (cache_managers (Some (mkRconf None false 0 0 0 0 8)) false [false; true; false])
   = [ThrAt 4000000032; ThrAt 4000000032; ThrAt 4000000032].
 Proof. vm_compute. reflexivity. Qed.
+
+(* ---- on_error placeholder with authorize_stale over a stale tile (whatever its `cache` flag) ------------------- *)
+
+Lemma placeholder_authorize_stale_keeps_stale_tile : forall Q m ev sc s a e cacheable v0,
+  get (s_cache s) a = Some e ->
+  tm_is_cached Q m ev (s_cache s) a = Some false ->
+  next_outcome sc s = UOk cacheable true v0 ->
+  exists s', create_single Q m ev sc s a = Cont s' [(a, content_of (s_cache s) a)] /\
+             s_cache s' = s_cache s /\ s_log s' = [a] :: s_log s /\
+             tm_is_cached Q m ev (s_cache s') a = Some false.
+Proof.
+  intros Q m ev sc s a e cacheable v0 Hg Hc Ho.
+  unfold create_single, tm_is_stale. rewrite Hc, Ho, Hg. cbn [negb].
+  eexists. split; [reflexivity|]. cbn [s_cache s_log]. repeat split. exact Hc.
+Qed.
+
+(* the same answer where nothing is cached yet: the placeholder is stored iff it is cacheable *)
+Lemma placeholder_authorize_stale_on_missing_tile : forall Q m ev sc s a cacheable v0,
+  get (s_cache s) a = None ->
+  tm_is_cached Q m ev (s_cache s) a = Some false ->
+  next_outcome sc s = UOk cacheable true v0 ->
+  create_single Q m ev sc s a =
+    Cont (mkSt (if cacheable then store_tile Q m ev (s_cache s) a (apply_tile_filter m v0) else s_cache s)
+               ([a] :: s_log s)) [(a, Some (apply_tile_filter m v0))].
+Proof.
+  intros Q m ev sc s a cacheable v0 Hg Hc Ho.
+  unfold create_single, tm_is_stale. rewrite Hc, Ho, Hg. reflexivity.
+Qed.
+
+Example ex_placeholder_authorize_stale :
+  (* a0 is stale; the upstream answers with a cacheable placeholder that authorises stale tiles *)
+  create_single Ex.q Ex.m_rel Ex.ev (fun _ => UOk true true 502) Ex.s0 Ex.a0 = Cont (mkSt Ex.c [[Ex.a0]]) [(Ex.a0, Some 100)]
+  /\ create_single Ex.q Ex.m_rel Ex.ev (fun _ => UOk true true 502) Ex.s0 Ex.a3 =
+     Cont (mkSt ((Ex.a3, mkEntry 502 4000000040) :: Ex.c) [[Ex.a3]]) [(Ex.a3, Some 502)].
+Proof. vm_compute. split; reflexivity. Qed.
+
+(* request level (single tile creation): the stale tile is served, the cache is untouched - so the tile is still
+   stale and the next request for it asks the upstream again *)
+Lemma request_placeholder_authorize_stale_single : forall Q m ev sc members s a e cacheable v0,
+  m_meta m = false ->
+  get (s_cache s) a = Some e ->
+  tm_is_cached Q m ev (s_cache s) a = Some false ->
+  next_outcome sc s = UOk cacheable true v0 ->
+  load_tile_coords Q m ev sc members s [a] = (mkSt (s_cache s) ([a] :: s_log s), Served [Some (e_content e)]) /\
+  forall sc', exists s2 r, load_tile_coords Q m ev sc' members (mkSt (s_cache s) ([a] :: s_log s)) [a] = (s2, r) /\
+                          s_log s2 = [a] :: [a] :: s_log s.
+Proof.
+  intros Q m ev sc members s a e cacheable v0 Hm Hg Hc Ho. split.
+  - unfold load_tile_coords. cbn [uncached]. rewrite Hc, Hm. cbn [create_loop].
+    unfold create_single, tm_is_stale. rewrite Hc, Ho, Hg. cbn [negb rev app map].
+    unfold serve. cbn [assoc]. rewrite addr_eqb_refl. unfold content_of. rewrite Hg. reflexivity.
+  - intros sc'. unfold load_tile_coords. cbn [uncached s_cache]. rewrite Hc, Hm. cbn [create_loop].
+    unfold create_single, tm_is_stale. cbn [s_cache s_log]. rewrite Hc, Hg. cbn [negb].
+    destruct (next_outcome sc' _) as [cb au v| | |]; [destruct au| | |]; cbn [s_log]; eexists; eexists; split; reflexivity.
+Qed.
+
+Example ex_request_placeholder_authorize_stale :
+  load_tile_coords Ex.q Ex.m_rel Ex.ev (fun _ => UOk true true 502) Ex.single Ex.s0 [Ex.a0] =
+  (mkSt Ex.c [[Ex.a0]], Served [Some 100]).
+Proof. vm_compute. reflexivity. Qed.
